@@ -113,9 +113,10 @@ def log_mode(qualnames=()):
 class Objective:
     """deterministic integer/dyadic-valued objective that records every batch it receives"""
 
-    def __init__(self, kind="onemax", scale=1.0, offset=0.0):
+    def __init__(self, kind="onemax", scale=1.0, offset=0.0, reuse_buffer=False):
         self.kind, self.scale, self.offset = kind, scale, offset
         self.batches = []
+        self.reuse_buffer, self._buf = reuse_buffer, None
 
     def value(self, X):
         X = np.asarray(X)
@@ -150,4 +151,10 @@ class Objective:
             return v
         v = self.value(X)
         self.batches.append((snap(np.asarray(X)), v.copy()))
+        if self.reuse_buffer:
+            # an admissible objective may write into a preallocated output buffer and return the SAME array object every call
+            if self._buf is None or self._buf.shape != v.shape:
+                self._buf = np.empty_like(v)
+            self._buf[...] = v
+            return self._buf
         return v
